@@ -150,8 +150,7 @@ Definition ro_start_time (rc : xml) : acc Z :=
     end
   end.
 
-(* ticks of 1/8 s -> microseconds *)
-Definition ticks_us (t : Z) : Z := (t * 125000)%Z.
+(* durations and offsets are whole microseconds, like instants: the float oracle supplies float(text) in microseconds *)
 
 (* a Story object as RunningOrder.stories builds it: the element, the offset table, the
    programme start *)
@@ -170,7 +169,7 @@ Definition so_start_time (s : story_obj) : acc Z :=
   | Some e => time_of e
   | None =>
     match so_start s, so_offset s with
-    | Some p, Some off => AVal (p + ticks_us off)%Z
+    | Some p, Some off => AVal (p + off)%Z
     | _, _ => ANone
     end
   end.
@@ -188,7 +187,7 @@ Definition so_end_time (s : story_obj) : acc Z :=
       match story_duration (so_xml s) with
       | AErr e => AErr e
       | ANone => ANone
-      | AVal d => AVal (st + ticks_us d)%Z
+      | AVal d => AVal (st + d)%Z
       end
     end
   end.
